@@ -932,6 +932,33 @@ func c11Overflow(r *gen.Rng, o *out.W) {
 	o.Sample(fmt.Sprintf("%d retained messages into a queue of %d, %d lines", k, q, len(w.trace)))
 }
 
+// a subscriber that does not acknowledge asks for more retained messages than its queue holds (C14): the broker may
+// drop it, but nobody else may have to wait for it
+func c14RetainedFlood(r *gen.Rng, o *out.W) {
+	q := 1 + r.Intn(3)
+	w := newWorld(o, "C14", 1, q, nil)
+	wit := w.Conn()
+	w.Connect(wit, "W", true, nil, 0, "", "")
+	w.Subscribe(wit, packet.Subscription{Topic: "w/#", QOS: 1})
+	w.mustSurvive[wit] = true
+	for i, k := 0, q+3+r.Intn(3); i < k; i++ {
+		w.Publish(wit, fmt.Sprintf("r/%d", i), 1, true, false)
+	}
+	h := w.Conn()
+	w.Connect(h, "H", r.Bool(), nil, 0, "", "")
+	w.Subscribe(h, packet.Subscription{Topic: "r/#", QOS: 1}) // never acknowledges what it gets
+	w.Publish(wit, "w/x", 1, false, false)
+	w.AckAll(wit)
+	c := w.Conn()
+	w.Connect(c, "N", true, nil, 0, "", "")
+	w.mustSurvive[c] = true
+	w.Publish(c, "w/y", 1, false, false)
+	w.AckAll(wit)
+	w.finish()
+	o.Distinct(strings.Join(w.trace, "\n"))
+	o.Sample(fmt.Sprintf("retained flood towards a silent subscriber, queue %d, %d lines", q, len(w.trace)))
+}
+
 // the backend is shut down while nobody (or somebody) is connected; connections that arrive afterwards must be turned
 // away and released, not left hanging (C14: shutdown leaves nothing blocked)
 func c14AfterClose(r *gen.Rng, o *out.W) {
@@ -1611,6 +1638,11 @@ func TestHarness(t *testing.T) {
 			return profile{window: 2 + r.Intn(4), queue: 100, clients: 2 + r.Intn(4), steps: 30 + r.Intn(40), wSub: 4, wUnsub: 1, wPub: 8, wAck: 4, wDrop: 3, wRecon: 4, wRelease: 1, wPing: 1, wBad: 6, wFail: 3, retain: 20, wills: true, qos: all, multiFilter: true}
 		})
 		sc("C14 own queue", c14OwnQueue)
+		if *fShard < 4 {
+			for i := 0; i < 4; i++ {
+				runCase(t, o, "C14 retained flood", func() { c14RetainedFlood(r, o) })
+			}
+		}
 		if *fShard < 4 {
 			for i := 0; i < 6; i++ {
 				runCase(t, o, "C14 connect after shutdown", func() { c14AfterClose(r, o) })
